@@ -68,6 +68,8 @@ REBOUND = {
                                    "by the property's premise; the dimension of the result is C04's concern)",
     "Probability": "Probability(v) -> v, refusing v outside [0, 1]  (contract of core/symbols/probability.py)",
     "Fraction": "Fraction(v) -> v, refusing v outside [0, 1]  (contract of core/symbols/fraction.py)",
+    "int": "int(v) -> v when v is a symbolic expression SymPy knows to be integral (ceiling(..)); any other symbolic v becomes "
+           "an uninterpreted truncation term (no proof goes through it)",
 }
 
 
@@ -420,6 +422,17 @@ class Refusal(ValueError):
     """The function under contract refuses this part of the domain."""
 
 
+def _t_int(value=0, *a, **k):
+    """int() on a symbolic value: identity on an already integral expression (ceiling(..), floor(..)); anything else is
+    truncation, left as an uninterpreted term so that no proof can go through it."""
+    import builtins
+    if isinstance(value, sp.Basic) and value.free_symbols:
+        if value.is_integer:
+            return value
+        return sp.Function("vf_int_truncation")(value)
+    return builtins.int(value, *a, **k)
+
+
 def _t_unit_interval(value):
     """Contract of core.symbols.probability.Probability / fraction.Fraction: refuse outside [0, 1], identity inside."""
     value = sp.sympify(value)
@@ -461,10 +474,15 @@ def transparent(globs: dict):
             if val is obj:
                 saved[name] = val
                 globs[name] = repl
+    added_int = "int" not in globs
+    if added_int:
+        globs["int"] = _t_int
     try:
-        yield sorted(set(rn for name in saved for rn, (obj, _r) in real.items() if saved[name] is obj))
+        yield sorted(set(rn for name in saved for rn, (obj, _r) in real.items() if saved[name] is obj) | {"int"})
     finally:
         globs.update(saved)
+        if added_int:
+            globs.pop("int", None)
         for k, v in had.items():
             if v is None:
                 try:
@@ -925,13 +943,26 @@ PREFIXES = [("nano", sp.Rational(1, 10**9)), ("micro", sp.Rational(1, 10**6)), (
             ("centi", sp.Rational(1, 100)), ("", sp.Integer(1)), ("kilo", sp.Integer(1000)), ("mega", sp.Integer(10**6))]
 
 
-def make_quantity(dim, si_value: float, prefix: str = ""):
-    """A real Quantity of dimension `dim` whose scale factor is `si_value`, written with the given unit prefix."""
+WIDE_SCALES = [(-15, "femto"), (-12, "pico"), (-9, "nano"), (-6, "micro"), (-3, "milli"), (0, ""), (3, "kilo"),
+               (6, "mega"), (9, "giga"), (12, "tera")]
+
+
+def make_quantity(dim, si_value, prefix: str = "", exact: bool = False):
+    """A real Quantity of dimension `dim` whose scale factor is `si_value`, written with the given unit prefix.
+    exact=True: si_value is a rational string; the construction is done in exact rationals (scale factor == value)."""
     from symplyphysics import Quantity
     from symplyphysics.core.dimensions import dimension_to_si_unit
     from sympy.physics.units import prefixes as P
     unit = dimension_to_si_unit(dim)
     base = Quantity(unit).scale_factor  # 1000**k for mass-bearing dimensions (gram-referenced SI of SymPy)
+    if exact:
+        v = sp.Rational(si_value)
+        if unit == 1:
+            return Quantity(v)
+        if prefix:
+            pf = getattr(P, prefix)
+            return Quantity(v / sp.Rational(base) / sp.Rational(pf.scale_factor) * pf * unit)
+        return Quantity(v / sp.Rational(base) * unit)
     if unit == 1:
         return Quantity(si_value)
     if prefix:
@@ -980,8 +1011,15 @@ def numeric_residual(eq, pairs, n_by_base=None, op=""):
     if op == "":
         lhs, rhs = _subst(e.lhs, pairs), _subst(e.rhs, pairs)
         lv, rv = _nval(lhs), _nval(rhs)
-        if any(math.isinf(abs(x)) for x in (lv, rv)):
-            raise Unsupported("non-finite value (overflow) at this point")
+        li, ri = math.isinf(abs(lv)), math.isinf(abs(rv))
+        if li or ri:
+            if li and ri:
+                ok = lv == rv
+                return ok, lv, rv, f"lhs={lv!r} rhs={rv!r} (both infinite)"
+            other = abs(rv) if li else abs(lv)
+            if other > 1e300:
+                raise Unsupported("non-finite value (float overflow) at this point")
+            return False, lv, rv, f"lhs={lv!r} rhs={rv!r}: one side of the law is infinite, the other is finite"
         # the terms of the law's own sides give the honest scale (a side that is a difference of huge terms, or 0)
         scale = max(abs(lv), abs(rv), _term_scale(e.lhs, pairs), _term_scale(e.rhs, pairs), 1e-300)
         ok = abs(lv - rv) <= REL_TOL * scale
@@ -1070,6 +1108,11 @@ def _build_arg(p: Param, entry):
     tag = entry[0]
     if tag == "q":
         return make_quantity(param_dimension(p), float(entry[1]), entry[2])
+    if tag == "qx":
+        return make_quantity(param_dimension(p), entry[1], entry[2], exact=True)
+    if tag == "fx":
+        r = sp.Rational(entry[1])
+        return int(r) if r.is_Integer else float(r)
     if tag == "f":
         return float(entry[1])
     if tag == "i":
